@@ -2,6 +2,7 @@
 //! positional-stream / unique-id oracles, descriptor and task accounting, fault injection.
 pub mod c01;
 pub mod c02;
+pub mod c08;
 pub mod c15;
 pub mod c16;
 pub mod chopper;
@@ -9,3 +10,4 @@ pub mod endpoints;
 pub mod nodes;
 pub mod procfs;
 pub mod tcpflows;
+pub mod udpfwd;
